@@ -1378,14 +1378,20 @@ package ucfg
 // reifyValue builds the value for a target that holds nothing yet. C06/C03: what it builds for a map or slice
 // target has the type of the target, pointers included - the caller stores it with reflect's Set / SetMapIndex,
 // which accept nothing else. (Frame and scope clause are assumed, as before: a reflect-driven dispatcher.)
+// The handle of a configuration: reflect.ValueOf of a *Config has the type held by tConfigPtr (assumed: what package
+// initialisation stores there is not modelled), and two pointer types convert into each other or not at all.
+//@ axiom [tconfig] forall v reflect.Value :: typeof(rvAny(v)) == *Config ==> rvType(v) == tConfigPtr
+//@ axiom [tconfig] rtKind(tConfigPtr) == 22
+//@ axiom [tconfig] forall a reflect.Type :: forall b reflect.Type :: rtKind(a) == 22 && rtKind(b) == 22 ==> convTo(a, b) == convTo(b, a)
 //@ func reifyValue :: opts, t, val -> r, err
 //@ props C06 C07
 //@ sweep
-//@ uses chase
+//@ uses chase tconfig
+//@ at-call (Value).Convert requires convTo(rvType(v), t)
 //@ requires t != nil
 //@ modifies tree(opts.opts)
 //@ ensures [scope !unproved] opts.opts.activeFields == old(opts.opts.activeFields)
-//@ ensures [container_typed @C06] err == nil && !convTo(old(tConfig), chasedT(t)) && (rtKind(chasedT(t)) == 21 || rtKind(chasedT(t)) == 23) ==> rvType(r) == t
+//@ ensures [container_typed @C06] err == nil && !convTo(old(tConfigPtr), ptrTo(chasedT(t))) && (rtKind(chasedT(t)) == 21 || rtKind(chasedT(t)) == 23) ==> rvType(r) == t
 
 // reifyMergeValue: the scope clause is the summary reifyMap relies on (assumed: the function is a reflect-driven
 // dispatcher); what is proved here is that every callee precondition holds at its call site - in particular
@@ -1406,7 +1412,9 @@ package ucfg
 //@ norte
 //@ uses chase
 //@ at-call reifyStruct requires rvType(orig) != atentry(tRegexp)
-//@ ensures [unpacker_validated @C04] err == nil && !((rvKind(chasedP(chasedI(oldValue))) == 22 || rvKind(chasedP(chasedI(oldValue))) == 20) && rvNil(chasedP(chasedI(oldValue)))) && !convTo(old(tConfig), chasedT(rvType(chasedP(chasedI(oldValue))))) && isUnp(chasedP(chasedI(oldValue))) ==> selfValid(chasedP(chasedI(oldValue))) && accepts(opts.validators, rvAny(chasedP(chasedI(oldValue))))
+//@ uses tconfig
+//@ at-call (Value).Convert#2 requires convTo(rvType(v), t)
+//@ ensures [unpacker_validated @C04] err == nil && !((rvKind(chasedP(chasedI(oldValue))) == 22 || rvKind(chasedP(chasedI(oldValue))) == 20) && rvNil(chasedP(chasedI(oldValue)))) && !convTo(old(tConfigPtr), ptrTo(chasedT(rvType(chasedP(chasedI(oldValue)))))) && isUnp(chasedP(chasedI(oldValue))) ==> selfValid(chasedP(chasedI(oldValue))) && accepts(opts.validators, rvAny(chasedP(chasedI(oldValue))))
 //@ rvwrites rvRootOf(oldValue), pointeeStore()
 //@ requires opts.opts != nil
 //@ modifies *
